@@ -18,7 +18,7 @@ import json
 import re
 from typing import Any, Callable, Dict, List, Optional, Tuple
 
-from .. import core, gen, wiregen, workers
+from .. import core, gen, orderdep, wiregen, workers
 from ..jsonrpc_ref import classify
 from ..workers import dec, enc
 
@@ -344,6 +344,7 @@ def run(tier: str, only=None) -> core.Result:
     finally:
         for p in pools.values():
             p.close()
+    pools_history = {n: p.history_before for n, p in pools.items()}
 
     for n in hello:
         if hello[n]["classes"] != class_list:
@@ -409,15 +410,79 @@ def run(tier: str, only=None) -> core.Result:
             undriven.append(q)
             res.harness_errors.append(f"no generated wire object of {q} is accepted by the Pydantic backend: the class is not driven")
 
-    # determinism audit in fresh workers
-    audit_total = audit_bad = 0
+    # aliased members of models held inside lists must be populated by the generator (by-alias dumps of nested lists)
+    nested_alias: Dict[str, Any] = {}
+    if not only or "models" in only:
+        expected = wiregen.list_nested_alias_sites([wiregen.resolve(q) for q in class_list])
+        hits: Dict[Tuple[str, str, str, str], int] = {}
+        for c, ap in zip(cases, answers["pydantic"]):
+            if c["part"] == "models" and ap["ok"]:
+                for h in wiregen.list_nested_alias_hits(wiregen.resolve(c["target"]), c["wire"]):
+                    hits[h] = hits.get(h, 0) + 1
+        for e in expected:
+            nested_alias["/".join(e)] = hits.get(e, 0)
+            if not hits.get(e):
+                res.harness_errors.append(f"the generator never populated the aliased member {e[3]} of {e[2]} inside the list {e[0]}.{e[1]}")
+
+    def store(sig, msg, replay_args):
+        k = json.dumps(sig, sort_keys=True)
+        sig_count[k] = sig_count.get(k, 0) + 1
+        if sig_count[k] <= MAX_STORED_PER_SIG:
+            res.add_violation(sig, msg, {"ref": "vf.checks.c09:replay_case", "args": replay_args})
+        else:
+            res.violation_total += 1
+
+    # order of validation made explicit: every ordered pair of same-named classes, each in fresh workers
+    pair_info: Dict[str, Any] = {"groups": {}, "ordered_pairs": 0, "cases_after_a_namesake": 0, "new_disagreements": 0}
+    if not only or "models" in only:
+        groups = orderdep.same_name_groups(class_list)
+        by_class: Dict[str, List[Dict[str, Any]]] = {}
+        for c in mcases:
+            by_class.setdefault(c["target"], []).append(c)
+        members = sorted({q for v in groups.values() for q in v})
+        pr = orderdep.run_pairs(CONFIGS, HANDLER, {q: [wire_case(c) for c in by_class[q]] for q in members}, groups)
+        pair_info["groups"] = {k: [wiregen.short(q) for q in v] for k, v in groups.items()}
+        pair_info["ordered_pairs"] = len(pr["pairs"])
+        for (qa, qb) in pr["pairs"]:
+            for which, q in ((0, qa), (1, qb)):
+                if which == 0:
+                    continue                      # the class validated first in a fresh worker is the 'alone' run
+                for ci, c in enumerate(by_class[q]):
+                    pair_info["cases_after_a_namesake"] += 1
+                    seq = compare(c, pr["pydantic"]["seq"][(qa, qb)][which][ci], pr["fallback"]["seq"][(qa, qb)][which][ci])
+                    alone = compare(c, pr["pydantic"]["alone"][q][ci], pr["fallback"]["alone"][q][ci])
+                    alone_sigs = {json.dumps(sg, sort_keys=True) for sg, _ in alone["violations"]}
+                    for sig, msg in seq["violations"]:
+                        if json.dumps(sig, sort_keys=True) in alone_sigs:
+                            continue
+                        pair_info["new_disagreements"] += 1
+                        sig = {**sig, "after": wiregen.short(qa)}
+                        store(sig, f"in a fresh process that first validated {len(by_class[qa])} objects of "
+                                   f"{wiregen.short(qa)}: {msg}",
+                              {"target": c["target"], "part": "pair-order", "label": c["label"], "wire": enc(c["wire"]),
+                               "history": [{"target": h["target"], "wire": enc(h["wire"])} for h in by_class[qa]]})
+
+    # determinism audit in fresh workers; a mismatch is explained before it is reported
+    audit_total = audit_bad = audit_order = 0
     for cfg in CONFIGS:
-        a = workers.audit(cfg, HANDLER, wcases, answers[cfg["name"]], AUDIT_MOD, cap=20000)
+        n = cfg["name"]
+        a = workers.audit(cfg, HANDLER, wcases, answers[n], AUDIT_MOD, cap=20000)
         audit_total += a["reasked"]
         audit_bad += a["mismatches"]
-        if a["mismatches"]:
-            i = a["first_mismatch_index"]
-            res.harness_errors.append(f"nondeterministic answer of the {cfg['name']} worker for {cases[i]['target']} {cases[i]['label']}")
+        for ex in orderdep.explain_audit_mismatches(cfg, HANDLER, wcases, answers[n], pools_history[n], a):
+            i = ex["index"]
+            if ex["kind"] == "nondeterministic":
+                res.harness_errors.append(f"nondeterministic answer of the {n} worker for {cases[i]['target']} {cases[i]['label']}")
+                continue
+            audit_order += 1
+            model = "parse_message" if cases[i]["target"] == "parse_message" else wiregen.short(cases[i]["target"])
+            store({"class": "order-dependent-behaviour", "backend": n, "model": model},
+                  f"{model} <- {json.dumps(cases[i]['wire'], ensure_ascii=True)[:200]}: under {n} the answer after "
+                  f"{len(ex['history'])} earlier validations in the same process ({ex['where']}) differs from the answer "
+                  f"of a fresh process: {orderdep.first_difference(ex['alone'], ex['after'])}",
+                  {"target": cases[i]["target"], "part": "order", "label": cases[i]["label"], "wire": enc(cases[i]["wire"]),
+                   "backend": n,
+                   "history": [{"target": cases[h]["target"], "wire": enc(cases[h]["wire"])} for h in ex["history"]]})
 
     if len(status_count) < 2 and not res.harness_errors:
         res.harness_errors.append(f"vacuous: a single outcome {status_count}")
@@ -435,7 +500,10 @@ def run(tier: str, only=None) -> core.Result:
     cov["unjudged_config_class_disagreements"] = {k: {"cases": n, "example": unjudged_examples[k]}
                                                   for k, n in sorted(unjudged.items())}
     cov["audit_reasked"] = audit_total
-    cov["audit_mismatches"] = audit_bad
+    cov["audit_mismatches"] = 0 if audit_order else audit_bad
+    cov["audit_mismatches_explained_as_order_dependence"] = audit_bad if audit_order else 0
+    cov["same_name_pair_order"] = pair_info
+    cov["list_nested_alias_coverage"] = nested_alias
     cov["configurations"] = {n: {k: v for k, v in h.items() if k != "classes"} for n, h in hello.items()}
     cov["samples"] = [{"part": c["part"], "target": c["target"], "label": c["label"], "wire": c["wire"]}
                       for c in _spread(cases, 6)]
@@ -474,14 +542,26 @@ def replay_case(args: Dict[str, Any]) -> Dict[str, Any]:
     logging.disable(logging.CRITICAL)
     wiregen.discover()
     c = {"target": args["target"], "part": args.get("part"), "label": args.get("label"), "wire": dec(args["wire"])}
-    pools = start_pools(1)
-    try:
-        ans = {n: p.map([wire_case(c)])[0] for n, p in pools.items()}
-    finally:
-        for p in pools.values():
-            p.close()
-    out = compare(c, ans["pydantic"], ans["fallback"])
+    hist = [{"op": "validate", "target": h["target"], "wire": h["wire"]} for h in args.get("history", [])]
+    ans, alone = {}, {}
+    for cfg in CONFIGS:
+        n = cfg["name"]
+        alone[n] = workers.fresh_sequence(cfg, HANDLER, [wire_case(c)])[0]
+        ans[n] = workers.fresh_sequence(cfg, HANDLER, hist + [wire_case(c)])[-1] if hist else alone[n]
     config_cls = c["target"] != "parse_message" and wiregen.is_config_class(wiregen.resolve(c["target"]))
+    if args.get("part") == "order":
+        n = args["backend"]
+        same = workers.line(ans[n]) == workers.line(alone[n])
+        viol = [] if same else [{"sig": {"class": "order-dependent-behaviour", "backend": n,
+                                         "model": "parse_message" if c["target"] == "parse_message" else wiregen.short(c["target"])},
+                                 "msg": f"after {len(hist)} earlier validations: {orderdep.first_difference(alone[n], ans[n])}"}]
+        return {"target": c["target"], "wire": c["wire"], "history_length": len(hist), "alone": alone[n], "after_history": ans[n],
+                "violations": viol}
+    out = compare(c, ans["pydantic"], ans["fallback"])
+    viols = out["violations"]
+    if hist:
+        base = {json.dumps(sg, sort_keys=True) for sg, _ in compare(c, alone["pydantic"], alone["fallback"])["violations"]}
+        viols = [(sg, m) for sg, m in viols if json.dumps(sg, sort_keys=True) not in base]
     shown = {}
     for n, a in ans.items():
         a = dict(a)
@@ -489,4 +569,5 @@ def replay_case(args: Dict[str, Any]) -> Dict[str, Any]:
             a["dump"] = dec(a["dump"])
         shown[n] = a
     return {"target": c["target"], "label": c["label"], "wire": c["wire"], "status": out["status"], "answers": shown,
-            "violations": [] if config_cls else [{"sig": s, "msg": m} for s, m in out["violations"]]}
+            "history_length": len(hist),
+            "violations": [] if config_cls else [{"sig": s_, "msg": m} for s_, m in viols]}
